@@ -93,6 +93,20 @@ func checkManifestAt(d mgen.Doc, viaLink bool, relative ...bool) error {
 	}
 	if err != nil {
 		ev.Label("opendir-refused")
+		// refused once, refused again: nothing about the attempt may be kept
+		var b2 *sourcebundle.Bundle
+		var err2 error
+		func() {
+			defer func() { recover() }()
+			target := root
+			if len(relative) > 0 && relative[0] {
+				return
+			}
+			b2, err2 = sourcebundle.OpenDir(target)
+		}()
+		if err2 == nil && b2 != nil {
+			return fmt.Errorf("OpenDir refused the manifest (%v) and accepted the same directory at the second attempt", err)
+		}
 		return nil
 	}
 	ev.Label("opendir-ok")
